@@ -41,6 +41,7 @@ def run(ctx):
         numeric.selfcheck(ctx, tr, defs, names, gen_env, impl, n=ctx.n(60, 600), rtol=1e-11, atol=1e-9)
         numeric.coq_point_check(ctx, "Gen_orbital", defs, ["gen_kep2xyz_x", "gen_kep2xyz_vz"], gen_env, impl, n=2,
                                 tol="1/1000000", unfold="gen_kep2xyz_x gen_kep2xyz_vz")
+    numeric.regen(ctx, "sgp4")
     ctx.build_props("props/C20.v")
 
     # ---------------- oracle on the implementation ----------------
